@@ -191,7 +191,7 @@ func c09GenCase(r *vh.Rand, kind string, thorough bool) c09Case {
 }
 
 func c09HasOracle(kind string) bool {
-	return kind != "react" && kind != "host" && kind != "wfstraggler" && !c09IsOptKind(kind) // the option families ask the oracle themselves (c09_opts.go)
+	return kind != "react" && kind != "host" && kind != "wfstraggler" && kind != "errpath" && !c09IsOptKind(kind) // the option families ask the oracle themselves (c09_opts.go)
 }
 
 // ---- the model's view of a case ----
@@ -423,7 +423,7 @@ func c09ObsEq(a, b c09Obs) bool {
 
 func c09Evaluate(ctx *vh.Ctx, c *c09Case, ans *c09OracleAns) {
 	ctx.Progress.Mark(c)
-	res := c09RunChild(c, 40*time.Second)
+	res := c09RunChild(c, 120*time.Second)
 	pars := map[string]bool{}
 	for _, k := range c.Calls {
 		pars[k.Paradigm] = true
@@ -588,6 +588,9 @@ func runC09(ctx *vh.Ctx) error {
 		if c09IsOptKind(c.Kind) {
 			return c09EvaluateX(ctx, &c)
 		}
+		if c.Kind == "errpath" {
+			return c09EvaluateE(ctx, &c)
+		}
 		a, err := ask(&c)
 		if err != nil {
 			return err
@@ -596,10 +599,10 @@ func runC09(ctx *vh.Ctx) error {
 		return nil
 	}
 	// fixed opening: the agents and one object of every kind, then random kinds
-	kinds := []string{"react", "wfstraggler", "optshare", "toollist", "pregel", "dag", "workflow", "chain", "nested", "checkpoint", "host"}
+	kinds := []string{"react", "wfstraggler", "errpath", "errpath", "optshare", "toollist", "pregel", "dag", "workflow", "chain", "nested", "checkpoint", "host"}
 	// after the opening the two call-option families are drawn twice as often as the others
-	pool := append(append([]string{}, kinds...), "optshare", "optshare", "optshare", "toollist", "toollist")
-	nOpt, nTL := 0, 0
+	pool := append(append([]string{}, kinds...), "optshare", "optshare", "optshare", "toollist", "toollist", "errpath", "errpath")
+	nOpt, nTL, nErr := 0, 0, 0
 	n := ctx.N(130, 2000)
 	for i := 0; i < n && ctx.TimeLeft(); i++ {
 		kind := kinds[i%len(kinds)]
@@ -607,6 +610,14 @@ func runC09(ctx *vh.Ctx) error {
 			kind = pool[ctx.Rng.Intn(len(pool))]
 		}
 		r := ctx.Rng.Fork()
+		if kind == "errpath" {
+			c := c09GenErrPath(r, nErr)
+			nErr++
+			if err := c09EvaluateE(ctx, &c); err != nil {
+				return err
+			}
+			continue
+		}
 		if c09IsOptKind(kind) {
 			var c c09Case
 			if kind == "optshare" {
